@@ -187,7 +187,7 @@ CLAIMED["C07"] = {
             "answer and every file handed in -- are closed, no wait), c07_ok_iff_status_empty, c07_child_reports_iff_failed, "
             "c07_failed_child_is_reaped (also when detached), c07_errno_roundtrip, c07_status_channel_survives_child_setup (at every fork the "
             "status write end is above 2 -- relocated with F_DUPFD_CLOEXEC when pipe() answered 0-2 -- and every dup2 of the child targets "
-            "0-2; genuine defect F12 found here and repaired by fix 5fc4fbc). On the real code every occurrence of every fallible "
+            "0-2; genuine defect F12 found here and repaired by fix 5fc4fbc), c07_placeholder_released_before_fork. On the real code every occurrence of every fallible "
             "step in parent and child is made to fail in turn (thorough: all valid triples x detached, 3144 plans) and the model must emit "
             "the same calls; oracles: error = injected errno, parent table unchanged, no child left (wait4(-1)).",
     "note": SPAWN_NOTE + " A failing read of the status channel itself and pthread_sigmask failing are outside the property's fault list "
@@ -197,7 +197,7 @@ CLAIMED["C08"] = {
     "engine": "spawn", "design_ref": "DESIGN.md section 6, C08",
     "technique": "Lean 4 proof (close-on-exec marking invariant) + trace conformance with the child's full descriptor table at exec",
     "text": "c08_parent_ends_cloexec (at the fork the parent end of every stream pipe has had FD_CLOEXEC set successfully), status_marked, "
-            "c08_parent_releases_child_ends, c08_child_closes_status_read; single spawning thread. On the real code the child's whole "
+            "c08_parent_releases_child_ends, c08_released_before_status_read, c08_child_closes_status_read; single spawning thread. On the real code the child's whole "
             "descriptor table at exec must contain nothing but 0,1,2 without close-on-exec, with 0 or 3 other live Popens, also for a "
             "caller whose own descriptors 0-2 are (partly) closed.",
     "note": SPAWN_NOTE + " Known finding C08 concurrent-spawn-window: for spawns from several threads the property does not hold "
